@@ -578,4 +578,7 @@ def run(ck, tier):
     ck.assume('histories of operations are not decided; the rules fix the shape of every address computation')
     from .. import ownership as _own
     ck.guard(_own.rule_instance_owned, ck, cx, 'R8', _own.STORES, 'a write changes cells outside the addressed block', 4)
+    from .. import ownership as _own2
+    ck.rule('R9', 'no unsound memoisation (a caching decorator on a method, or on a function that returns a mutable container) in the modules this property rests on')
+    ck.guard(_own2.rule_no_unsafe_memo, ck, cx, 'R9', ('pymodbus.datastore.context', 'pymodbus.datastore.store'), 'validate / getValues answer from a value cached before the block changed')
     return cx.idx
